@@ -239,6 +239,62 @@ def generated_mazes(ctx, n):
         ctx.count("generator_mazes_all_pairs")
 
 
+def solved_constructors(ctx, n):
+    """the property's second observation point: SolvedMaze.from_targeted_lattice_maze(t).solution — for a plain TargetedLatticeMaze, for
+    a SolvedMaze that already carries a legal but LONGER walk between its endpoints (paths come from users, from_tokens, from_pixels:
+    nothing makes a stored one shortest), for a SolvedMaze carrying the shortest path, and for targeted mazes whose endpoints are not
+    connected (ValueError expected). Judged by BFS on the connection structure."""
+    import maze_dataset.maze.lattice_maze as LM
+    for k in range(n):
+        r, c, cl = random_maze(ctx.rng, 6)
+        cells = list(itertools.product(range(r), range(c)))
+        s = ctx.rng.choice(cells); d = bfs(r, c, cl, s)
+        e = ctx.rng.choice(sorted(d)) if ctx.rng.random() < 0.8 else ctx.rng.choice(cells)
+        edges = [[int(a), int(b), int(cc)] for a, b, cc in zip(*np.nonzero(cl))]
+        def nbrs(x):
+            i, j = x; out = []
+            if i > 0 and cl[0, i - 1, j]: out.append((i - 1, j))
+            if i < r - 1 and cl[0, i, j]: out.append((i + 1, j))
+            if j > 0 and cl[1, i, j - 1]: out.append((i, j - 1))
+            if j < c - 1 and cl[1, i, j]: out.append((i, j + 1))
+            return out
+        inputs = [("a TargetedLatticeMaze", lambda: LM.TargetedLatticeMaze(connection_list=cl.copy(), start_pos=np.array(s), end_pos=np.array(e)))]
+        if e in d:
+            # a legal walk from s to e with detours: random steps, then the BFS route home
+            walk = [s]
+            for _ in range(ctx.rng.randrange(0, 8)):
+                nb = nbrs(walk[-1])
+                if not nb: break
+                walk.append(ctx.rng.choice(nb))
+            de = bfs(r, c, cl, e)
+            while walk[-1] != e:
+                walk.append(min(nbrs(walk[-1]), key=lambda x: de[x]))
+            inputs.append((f"a SolvedMaze that carries the legal {len(walk) - 1}-step walk {walk}", lambda w=walk: LM.SolvedMaze(connection_list=cl.copy(), solution=np.array(w))))
+        for label, mk in inputs:
+            case = dict(rows=r, cols=c, edges=edges, start=list(s), end=list(e), constructor=label[:40])
+            ctx.case(["ctor", k, label[:12]], nontrivial=s != e); ctx.count("from_targeted_lattice_maze")
+            try:
+                t = mk()
+            except Exception as ex:
+                continue
+            try:
+                sol = [tuple(int(v) for v in x) for x in LM.SolvedMaze.from_targeted_lattice_maze(t).solution]; got = len(sol) - 1
+            except ValueError:
+                sol, got = None, None
+            except Exception as ex:
+                sol, got = None, type(ex).__name__
+            bad = None
+            if e in d:
+                if sol is None: bad = f"raised {got or 'ValueError'} although the endpoints are connected (distance {d[e]})"
+                elif sol[0] != s or sol[-1] != e: bad = f"solution {sol} does not run from {s} to {e}"
+                elif any(b not in nbrs(a) for a, b in zip(sol, sol[1:])): bad = f"solution {sol} leaves the connections"
+                elif got != d[e]: bad = f"solution has {got} steps, the minimum is {d[e]}"
+            elif sol is not None or got is not None:
+                bad = f"endpoints are not connected but the result was {sol if sol is not None else got}"
+            if bad:
+                ctx.violate(f"SolvedMaze.from_targeted_lattice_maze on {label} ({r}x{c} maze {edges}, {s}->{e}): {bad}", case); return
+
+
 def big_jobs(rng, quick):
     """scale: grids far beyond the exhaustive range (a defect may need a long distance or a large coordinate to show)"""
     jobs = []
@@ -286,6 +342,7 @@ def run(ctx):
     jobs += big_jobs(ctx.rng, ctx.quick)
     mutation_sequences(ctx, 60 if ctx.quick else 1500)
     generated_mazes(ctx, 40 if ctx.quick else 600)
+    solved_constructors(ctx, 300 if ctx.quick else 6000)
     ctx.count("mazes", len(jobs))
     if ctx.quick:
         results = [solve_all(cl, pairs) for r, c, cl, pairs, _ in jobs]
@@ -312,6 +369,8 @@ def search(ctx):
     if ctx.violations: return
     generated_mazes(ctx, 200)
     if ctx.violations: return
+    solved_constructors(ctx, 2000)
+    if ctx.violations: return
     for r, c, cl, pairs, tag in big_jobs(ctx.rng, False):
         if not judge(ctx, r, c, cl, solve_all(cl, pairs), tag):
             return
@@ -325,6 +384,8 @@ def search(ctx):
 
 def replay(ctx, rp):
     c = rp["case"]
+    if c.get("constructor"):
+        solved_constructors(ctx, 2000); return
     cl = np.zeros((2, c["rows"], c["cols"]), dtype=bool)
     for d, i, j in c["edges"]: cl[d, i, j] = True
     judge(ctx, c["rows"], c["cols"], cl, solve_all(cl, [(tuple(c["start"]), tuple(c["end"]))]), "replay")
